@@ -9,7 +9,7 @@ loader = importlib.machinery.SourceFileLoader('chk', '/verif/check')
 spec = importlib.util.spec_from_loader('chk', loader)
 chk = importlib.util.module_from_spec(spec); loader.exec_module(chk)
 import extract
-from rules.c01 import panic_sites
+from rules.c01 import classified_sites
 ctx = chk.Ctx(extract.extract(), 'quick', 0)
 SPECIFIC = {
  ("StyleSheetTransformer::append_nested_block", "panic"): "unreachable!(): every caller passes a block-opening token (Curly/Square/Paren/Function), see the dispatch arms checked by C08.ctx",
@@ -52,7 +52,7 @@ GENERIC = [
 ]
 rows = []
 unreviewed = []
-for (crate, root, cat), spans in sorted(panic_sites(ctx.mir).items()):
+for (crate, root, cat), spans in sorted(classified_sites(ctx).items()):
     why = None
     for (fn, kind), w in SPECIFIC.items():
         if root.endswith(fn) and (cat == kind or cat.startswith(kind + ":") or (kind.startswith("assert:") and cat.startswith(kind))):
@@ -62,6 +62,8 @@ for (crate, root, cat), spans in sorted(panic_sites(ctx.mir).items()):
             if re.search(crx, cat) and re.search(frx, root):
                 why = w
                 break
+    if cat in ('unwrap:fmt', 'panic:covered', 'index:boundary'):
+        continue  # discharged mechanically by rules/c01.py, not by this table
     if why is None:
         unreviewed.append((crate, root, cat, spans))
         continue
